@@ -138,6 +138,18 @@ check("C12", "proof",
       "find_name abstraction in the proof; the enumeration is exhaustive only for the three-component alphabet; one recorded "
       "known finding (a bound name that is also a prefix of longer bindings evaluates to the internal NameContainer).",
       "contract-based deductive verification (loop unrolled over concrete package/chain shapes, symbolic outcomes) + exhaustive small-alphabet enumeration", "DESIGN.md 4/C12")
+check("C14", "proof",
+      "function_eval / method_eval are executed symbolically with an arbitrary host callable that logs its calls: for 0-3 "
+      "arguments, in both forms, the callable is invoked exactly once with the evaluated arguments (the receiver first for "
+      "the method form); a returned CELEvalError is the outcome, a raised ValueError/TypeError becomes an error value, an "
+      "error argument is the outcome without a call, an unbound name is an error. Activation.__init__ for both supplying "
+      "styles binds by name in front of the built-ins while the shared base_functions dict is never written (heap-write "
+      "log over the real ChainMap source). The compiled call templates (emitted by the real transpiler for a lambda-bound "
+      "function, then executed symbolically) make exactly one call with the evaluated holes; a failing program construction "
+      "is a refuted obligation.",
+      "host callables are abstract (value / returned error / raised ValueError or TypeError); every kind of Python callable x "
+      "supplying style x call shape x both runners and the once-per-call-site counts are a bounded stand-in.",
+      "contract-based deductive verification with a ghost call log + frame (heap-write) obligation", "DESIGN.md 4/C14")
 _pending = "contracts for this property are not built yet in this revision (work in progress, see DESIGN.md section 8 build order)"
-for _p in ["C03","C04","C05","C06","C07","C14","C16"]:
+for _p in ["C03","C04","C05","C06","C07","C16"]:
     NA[_p] = _pending
